@@ -455,7 +455,7 @@ class Coder(object):
             nbytes = state.new_nbytes if state.new_nbytes else descriptor.nbits // 8
             self.process_string(state, bit_operator, descriptor, nbytes)
 
-        elif descriptor.unit in (UNITS_FLAG_TABLE, UNITS_CODE_TABLE):
+        elif descriptor.unit.upper() in (UNITS_FLAG_TABLE, UNITS_CODE_TABLE):
             self.process_codeflag(state, bit_operator, descriptor, descriptor.nbits)
 
         else:
